@@ -26,6 +26,24 @@ pub fn run(tier: &str) -> Result<Report, String> {
         alpha.consts = vec![true, false];
         let mut g = Gen::new(alpha.clone());
         let fs: Vec<_> = g.closed_up_to(m).into_iter().filter(|f| f.has_op_bi(Bi::EW) || f.has_op_bi(Bi::AW)).collect();
+        // shapes beyond the node bound: EW / AW inside sub-formulae that occur twice up to renaming
+        // (one and two free variables, mirrored roles, different depths)
+        let mut fs = fs;
+        for w in ["EW", "AW"] {
+            for t in [
+                "3{x}: 3{y}: ((@{x}: (~{y} & (a OP {y}))) & (@{y}: (~{x} & (a OP {x}))))",
+                "!{x}: 3{y}: ((@{x}: (a OP {y})) & (@{y}: (a OP {x})))",
+                "3{x}: 3{y}: ((@{x}: ({y} OP a)) | (@{y}: ({x} OP a)))",
+                "!{x}: ((3{y}: ({x} OP {y})) & (3{y}: ({y} OP {x})))",
+                "!{x}: 3{y}: (({x} OP {y}) & ({y} OP {x}))",
+                "(!{x}: (a OP {x})) & (!{y}: (a OP {y}))",
+                "3{x}: ((@{x}: (!{y}: (a OP {y}))) & (3{y}: (@{y}: (!{z}: (a OP {z})))))",
+                "!{x}: ((a OP {x}) & (3{y}: (@{y}: (a OP {y}))))",
+                "V{x}: V{y}: ((@{x}: ({x} OP {y})) | (@{y}: ({y} OP {x})))",
+            ] {
+                fs.push(crate::formulas::f(&t.replace("OP", w), &ctx.user));
+            }
+        }
         if rep.samples.len() < 5 {
             let f = &fs[fs.len() / 2];
             rep.sample(json!({"network": b.name, "formula": f.show(&ctx.user), "expected_states_per_colour": ctx.expected(f).iter().map(|m| format!("{m:b}")).collect::<Vec<_>>()}));
@@ -41,6 +59,6 @@ pub fn run(tier: &str) -> Result<Report, String> {
         sem::ops_sweep(&mut rep, &b, &forms, true, ck);
     }
     rep.set("slices", json!(slices));
-    rep.rule = "all closed formulae up to max_nodes nodes over all operators that contain EW or AW, on the core networks, compared point-wise with the oracle's E[a W b] = E[a U b] or EG a and A[a W b] = not E[not b U (not a and not b)]; plus EW/AW (and their defining right-hand sides) on every pair of coloured sets of tiny networks as wild-card arguments".into();
+    rep.rule = "all closed formulae up to max_nodes nodes over all operators that contain EW or AW, plus 18 template formulae in which EW / AW sub-formulae occur twice up to renaming (one / two free variables, mirrored roles, different depths), on the core networks, compared point-wise with the oracle's E[a W b] = E[a U b] or EG a and A[a W b] = not E[not b U (not a and not b)]; plus EW/AW (and their defining right-hand sides) on every pair of coloured sets of tiny networks as wild-card arguments".into();
     Ok(rep)
 }
